@@ -7,7 +7,7 @@ pub fn run(run: &mut Run) {
     crate::props::c02::common_assumptions(run);
     crate::props::c02::known_findings(run);
     run.assume("every simulated frame is pre-filled with deterministic non-zero junk shaped like present entries pointing at a guard frame; released tables are handed out again first (recycled frames)");
-    let n = run.cases(16_000, 800_000);
+    let n = run.cases(48_000, 1_500_000);
     let max_ops = if run.tier == crate::engine::Tier::Quick { 32 } else { 96 };
     run.sub(
         "memory_discipline",
